@@ -146,11 +146,66 @@ def _resolve_const(e, fn, depth=0):
     return e
 
 
-def _pattern_literal(e, fn):
+def _fold_str(e, fn, depth=0):
+    """constant folding of a string expression built from literals and constants: +, %, .format, f-strings,
+    str.join of a literal list, re.escape(<constant>) -- acts on program text only.  None if not a constant."""
+    if depth > 8:
+        return None
     e = _resolve_const(e, fn)
     if isinstance(e, ast.Constant) and isinstance(e.value, (str, bytes)):
         return e.value
-    _err("%s: regex pattern %s is not a literal" % (fn.qualname, ast.unparse(e)))
+    if isinstance(e, ast.BinOp) and isinstance(e.op, ast.Add):
+        a, b = _fold_str(e.left, fn, depth + 1), _fold_str(e.right, fn, depth + 1)
+        return a + b if a is not None and b is not None and type(a) is type(b) else None
+    if isinstance(e, ast.BinOp) and isinstance(e.op, ast.Mod):
+        a = _fold_str(e.left, fn, depth + 1)
+        parts = e.right.elts if isinstance(e.right, ast.Tuple) else [e.right]
+        vals = [_fold_str(x, fn, depth + 1) for x in parts]
+        if a is None or any(v is None for v in vals):
+            return None
+        try:
+            return a % tuple(vals)
+        except (TypeError, ValueError):
+            return None
+    if isinstance(e, ast.JoinedStr):
+        out = ""
+        for v in e.values:
+            if isinstance(v, ast.Constant):
+                out += v.value
+            elif isinstance(v, ast.FormattedValue) and v.format_spec is None and v.conversion == -1:
+                x = _fold_str(v.value, fn, depth + 1)
+                if not isinstance(x, str):
+                    return None
+                out += x
+            else:
+                return None
+        return out
+    if isinstance(e, ast.Call):
+        d = dotted(e.func)
+        if d == "re.escape" and len(e.args) == 1 and not e.keywords:
+            x = _fold_str(e.args[0], fn, depth + 1)
+            return re.escape(x) if x is not None else None
+        if isinstance(e.func, ast.Attribute) and e.func.attr == "format" and not e.keywords:
+            a = _fold_str(e.func.value, fn, depth + 1)
+            vals = [_fold_str(x, fn, depth + 1) for x in e.args]
+            if isinstance(a, str) and all(isinstance(v, str) for v in vals):
+                try:
+                    return a.format(*vals)
+                except (IndexError, KeyError, ValueError):
+                    return None
+        if isinstance(e.func, ast.Attribute) and e.func.attr == "join" and len(e.args) == 1 and isinstance(e.args[0], (ast.List, ast.Tuple)):
+            a = _fold_str(e.func.value, fn, depth + 1)
+            vals = [_fold_str(x, fn, depth + 1) for x in e.args[0].elts]
+            if isinstance(a, str) and all(isinstance(v, str) for v in vals):
+                return a.join(vals)
+    return None
+
+
+def _pattern_literal(e, fn):
+    v = _fold_str(e, fn)
+    if v is not None:
+        return v
+    _err("%s: regex pattern %s is not a constant" % (fn.qualname, ast.unparse(e)))
 
 
 def _compiled(e, fn):
@@ -208,12 +263,50 @@ def _test_lang(cond, var, fn):
     acc = _regex_call(cond, var, fn)
     if acc is not None:
         return [acc]
+    # predicate helper applied to the name: self.h(x) / cls.h(x) / APK.h(x) / h(x)
+    if isinstance(cond, ast.Call) and len(cond.args) == 1 and not cond.keywords and isinstance(cond.args[0], ast.Name) and cond.args[0].id == var:
+        h = _predicate_helper(cond.func, fn)
+        if h is not None:
+            return _helper_lang(h, fn)
     _err("%s: filter predicate %s is outside the analysable fragment" % (fn.qualname, ast.unparse(cond)))
+
+
+def _predicate_helper(f, fn):
+    """expression naming a one-argument predicate of the class / module -> Fn or None"""
+    w = getattr(fn, "world", None)
+    if w is None:
+        return None
+    node = None
+    if isinstance(f, ast.Attribute) and isinstance(f.value, ast.Name) and f.value.id in ("self", "cls", w.info.get("class_name", "APK")):
+        node = w.info.get("methods", {}).get(f.attr)
+        name = "APK." + f.attr
+    elif isinstance(f, ast.Name) and not fn.assignments(f.id):
+        node = w.info.get("module_funcs", {}).get(f.id)
+        name = f.id
+    if node is None:
+        return None
+    h = Fn(name, node)
+    h.world = w
+    return h
+
+
+def _helper_lang(h, fn, depth=0):
+    """language of the names for which the predicate helper returns a true value"""
+    if getattr(fn, "_pred_depth", 0) > 3:
+        _err("%s: predicate helpers nest too deeply" % fn.qualname)
+    ps = h.params()
+    decos = [dotted(d) for d in h.node.decorator_list]
+    if h.qualname.startswith("APK.") and "staticmethod" not in decos:
+        ps = ps[1:]
+    if len(ps) != 1:
+        _err("%s: predicate helper %s does not take exactly the name" % (fn.qualname, h.qualname))
+    h._pred_depth = getattr(fn, "_pred_depth", 0) + 1
+    return _test_lang(_single_return(h), ps[0], h)
 
 
 def _bound_regex_method(e, fn):
     """`dexre.match` used as a predicate -> Acceptor"""
-    if isinstance(e, ast.Attribute) and e.attr in ("match", "search", "fullmatch"):
+    if isinstance(e, ast.Attribute) and e.attr in ("match", "search", "fullmatch") and _predicate_helper(e, fn) is None:
         return RL.Acceptor(_compiled(e.value, fn), e.attr)
     return None
 
@@ -269,6 +362,10 @@ def iter_lang(e, fn, world, depth=0):
                     n = Names(base.accs, base.dropped, base)
                     n.opaque.append(pred.body)
                     return n
+                return Names(base.accs + new, base.dropped, base, new)
+            h = _predicate_helper(pred, fn)
+            if h is not None:
+                new = _helper_lang(h, fn)
                 return Names(base.accs + new, base.dropped, base, new)
             acc = _bound_regex_method(pred, fn)
             if acc is not None:
@@ -387,8 +484,54 @@ def check_get_dex_names(sink, world):
     sink.count("functions")
 
 
+def _counter_loop(fn, name, world):
+    """c = 0; for v in IT: if cond: c += 1   ->  Names(IT filtered by cond)"""
+    inits, incs = [], []
+    for n in walk_no_nested(fn.node):
+        if isinstance(n, ast.Assign) and any(isinstance(t, ast.Name) and t.id == name for t in n.targets):
+            inits.append(n)
+        elif isinstance(n, ast.AugAssign) and isinstance(n.target, ast.Name) and n.target.id == name:
+            incs.append(n)
+    if len(inits) != 1 or len(incs) != 1 or not (isinstance(inits[0].value, ast.Constant) and inits[0].value.value == 0 and type(inits[0].value.value) is int):
+        return None
+    inc = incs[0]
+    if not (isinstance(inc.op, ast.Add) and isinstance(inc.value, ast.Constant) and inc.value.value == 1 and type(inc.value.value) is int):
+        return None
+    # the increment sits under `if`s (no else) directly inside exactly one for loop of the function body
+    loops = [l for l in walk_no_nested(fn.node) if isinstance(l, ast.For) and any(x is inc for x in ast.walk(l))]
+    if len(loops) != 1 or loops[0] not in fn.node.body or inits[0] not in fn.node.body or not isinstance(loops[0].target, ast.Name) or loops[0].orelse:
+        return None
+    if fn.node.body.index(inits[0]) > fn.node.body.index(loops[0]):
+        return None
+    loop, conds, block = loops[0], [], loops[0].body
+    while True:
+        if len(block) == 1 and block[0] is inc:
+            break
+        if len(block) == 1 and isinstance(block[0], ast.If) and not block[0].orelse:
+            conds.append(block[0].test)
+            block = block[0].body
+            continue
+        return None
+    if any(isinstance(x, (ast.Break, ast.Continue, ast.Return)) for x in ast.walk(loop)):
+        return None
+    base = iter_lang(loop.iter, fn, world)
+    if not _identity_elt(base):
+        return None
+    new, opaque = [], []
+    for c in conds:
+        try:
+            new += _test_lang(c, loop.target.id, fn)
+        except AnalysisError:
+            opaque.append(c)
+    n = Names(base.accs + new, base.dropped, base, new)
+    n.opaque += opaque
+    return n
+
+
 def _count_expr(e, fn, world):
-    """len(<names>) / sum(1 for ...) -> Names, else None"""
+    """len(<names>) / sum(1 for ...) / a counter incremented in a filtering loop -> Names, else None"""
+    if isinstance(e, ast.Name):
+        return _counter_loop(fn, e.id, world)
     if isinstance(e, ast.Call) and isinstance(e.func, ast.Name) and len(e.args) == 1 and not e.keywords:
         if e.func.id == "len":
             return iter_lang(e.args[0], fn, world)
@@ -413,7 +556,7 @@ def check_is_multidex(sink, world):
     if not (isinstance(e, ast.Compare) and len(e.ops) == 1 and type(e.ops[0]) in _CMP):
         _err("is_multidex: return value %s is not a comparison of a count" % ast.unparse(e))
     left, right = e.left, e.comparators[0]
-    lres = lambda x: fn.local(x.id) if isinstance(x, ast.Name) else x
+    lres = lambda x: fn.local(x.id) if isinstance(x, ast.Name) and len(fn.assignments(x.id)) == 1 and fn.assignments(x.id)[0] is not None else x
     left, right = lres(left), lres(right)
     names = _count_expr(left, fn, world)
     opsym = {ast.Gt: ">", ast.GtE: ">=", ast.Lt: "<", ast.LtE: "<=", ast.Eq: "==", ast.NotEq: "!="}[type(e.ops[0])]
@@ -457,10 +600,14 @@ def check_get_all_dex(sink, world):
                                "get_all_dex skips or stops on some names of get_dex_names (%s)" % norm(conds[0] if not isinstance(conds[0], ast.If) else conds[0].test)[:80],
                                node=conds[0])
                     src = (loop.iter, loop.target.id, ys[0].value, loop)
-        elif len(ys) == 1 and isinstance(ys[0], ast.YieldFrom) and isinstance(ys[0].value, ast.GeneratorExp):
+        elif len(ys) == 1 and isinstance(ys[0], ast.YieldFrom) and isinstance(ys[0].value, (ast.GeneratorExp, ast.ListComp)):
             g = ys[0].value
             if len(g.generators) == 1 and isinstance(g.generators[0].target, ast.Name) and not g.generators[0].ifs:
                 src = (g.generators[0].iter, g.generators[0].target.id, g.elt, g)
+        elif (len(ys) == 1 and isinstance(ys[0], ast.YieldFrom) and isinstance(ys[0].value, ast.Call) and dotted(ys[0].value.func) == "map"
+              and len(ys[0].value.args) == 2 and dotted(ys[0].value.args[0]) == "self.get_file"):
+            c = ys[0].value
+            src = (c.args[1], "_", ast.parse("self.get_file(_)", mode="eval").body, c)
     else:
         rs = fn.returns()
         if len(rs) == 1 and isinstance(rs[0].value, (ast.GeneratorExp, ast.ListComp)):
@@ -803,13 +950,24 @@ def check_get_files(sink, world):
 
 def check_zip_origin(sink, world):
     init = world.fn("__init__")
-    n = 0
-    for a in walk_no_nested(init.node):
-        if isinstance(a, ast.Assign) and any(dotted(t) == "self.zip" for t in a.targets):
-            ok = isinstance(a.value, ast.Call) and dotted(a.value.func) == "ZipEntry.parse"
-            sink.check("get_files/archive", "self.zip is the parsed archive", ok, init.qualname, a,
-                       "self.zip is not ZipEntry.parse(<the APK>)", node=a, detail=norm(a))
-            n += 1
+    todo, seen, n = [init], set(), 0
+    while todo:
+        f = todo.pop()
+        if f.qualname in seen or len(seen) > 12:
+            continue
+        seen.add(f.qualname)
+        for a in walk_no_nested(f.node):
+            if isinstance(a, ast.Assign) and any(dotted(t) == "self.zip" for t in a.targets):
+                ok = isinstance(a.value, ast.Call) and dotted(a.value.func) == "ZipEntry.parse"
+                sink.check("get_files/archive", "self.zip is the parsed archive", ok, f.qualname, a,
+                           "self.zip is not ZipEntry.parse(<the APK>)", node=a, detail=norm(a))
+                n += 1
+            elif isinstance(a, ast.Call) and isinstance(a.func, ast.Attribute) and isinstance(a.func.value, ast.Name) and a.func.value.id == "self":
+                h = world.info.get("methods", {}).get(a.func.attr)
+                if h is not None:
+                    hf = Fn("APK." + a.func.attr, h)
+                    hf.world = world
+                    todo.append(hf)
     sink.count("zip_assignments", n)
 
 
@@ -874,7 +1032,7 @@ def run(ctx):
         if isinstance(n, ast.Attribute) and isinstance(n.ctx, (ast.Store, ast.Del)) and isinstance(n.value, ast.Name) and n.value.id in ("self", "cls", "APK"):
             stores.add(n.attr)
     info = dict(class_name="APK", classes={k: list(c.base_names) for k, c in m.classes.items()}, class_attrs=dict(cls.attrs),
-                module_consts=dict(m.assigns), methods={k: f.node for k, f in cls.methods.items()}, attr_stores=stores)
+                module_consts=dict(m.assigns), module_funcs={k: f.node for k, f in m.functions.items() if "." not in k}, methods={k: f.node for k, f in cls.methods.items()}, attr_stores=stores)
     core(sink, nodes, info, ctx.require)
     ctx.floor("functions", 5)
     ctx.floor("name_set_sites", 3)
